@@ -350,23 +350,26 @@ class R:
         g.emit("drain64 %s 9" % i)
         g.count("iter64:gap-episode")
 
-    def boundary_episode(self):
-        """range operations whose END (or start) sits exactly on a bucket boundary, with buckets present on both sides"""
+    def boundary_episode(self, b=None):
+        """range operations whose END (or start) sits exactly on a bucket boundary, with buckets present on both sides
+        (b given: the deterministic form with every value and every operation)"""
         g, r = self.g, self.r
-        b = r.choice([1, 2, 0x80000000, 0xFFFFFFFF, 3])
+        full = b is not None
+        if b is None:
+            b = r.choice([1, 2, 0x80000000, 0xFFFFFFFF, 3])
         edge = b << 32
         x = g.fresh("e")
         g.emit("new64 %s" % x)
         vs = [edge - 1, edge - 3, edge - 70000, edge, edge + 1, edge + 65536, edge + B32 - 1]
         if b < 0xFFFFFFFF:
             vs += [edge + B32, edge + B32 + 5]
-        g.emit("addmany64 %s %s" % (x, " ".join(str(v) for v in vs if r.random() < 0.85 and v <= MAXV)))
-        if r.random() < 0.3:
+        g.emit("addmany64 %s %s" % (x, " ".join(str(v) for v in vs if (full or r.random() < 0.85) and v <= MAXV)))
+        if not full and r.random() < 0.3:
             g.emit("opt64 %s" % x)
         for s, e in [(edge - r.choice([1, 2, 3, 100, 70000]), edge), (edge - 1, edge), (edge, edge), (edge, edge + r.choice([1, 2, 65536])),
                      (edge - r.choice([1, 5, 65536]), edge + r.choice([1, 2, 65537])),
                      (min(MAXV, edge + B32) - r.choice([1, 2, 70000]), min(MAXV, edge + B32))]:
-            for op in r.sample(["sflip64", "flip64", "addr64", "remr64"], 3):
+            for op in (["sflip64", "flip64", "addr64", "remr64"] if full else r.sample(["sflip64", "flip64", "addr64", "remr64"], 3)):
                 g.count("edge64:" + op)
                 if op == "sflip64":
                     y = g.fresh("f")
@@ -382,6 +385,8 @@ class R:
 
     def suite_hist(self, nhist, steps):
         g, r = self.g, self.r
+        self.boundary_episode(1)
+        self.boundary_episode(0x80000000)
         self.boundary_episode()
         self.iter_gap_episode()
         for _ in range(nhist):
